@@ -156,4 +156,5 @@ func TestC17(t *testing.T) {
 			run.Sample(map[string]any{"config": cfg.String(), "history": stepsString(h)})
 		}
 	})
+	c17Concurrent(run)
 }
